@@ -1446,8 +1446,9 @@ class Result:
         if not XY:
             raise CobaException(f"We were unable to create any pairings to contrast. Make sure l1={og_l[0]} and l2={og_l[1]} is correct.")
 
-        l1_label = self._lrn_cache[l1[0]]['full_name'] if l=='learner_id' else 'l1'
-        l2_label = self._lrn_cache[l2[0]]['full_name'] if l=='learner_id' else 'l2'
+        #label with the first learner that is in the result (a given learner_id may not be, see above)
+        l1_label = next((self._lrn_cache[i]['full_name'] for i in l1 if i in self._lrn_cache),'l1') if l=='learner_id' else 'l1'
+        l2_label = next((self._lrn_cache[i]['full_name'] for i in l2 if i in self._lrn_cache),'l2') if l=='learner_id' else 'l2'
 
         X,Y = zip(*sorted(XY.items()))
 
